@@ -1312,6 +1312,23 @@ class Gen:
             spec = {"c": "LInner", "p": {"tag": "sh"}, "ch": {"items": kids}, "o": "no"}
         return {"act": "new", "spec": spec, "bad": "ctor_shared_two_depths"}
 
+    def rj_ctor_shared_by_two_holders(self) -> dict[str, Any] | None:
+        """A constructor over two fresh detached holders that both hold the same attached root (siblings in the
+        subtree being attached)."""
+        r = self.r("rj16")
+        c = [h for h in self.free_nodes(allow_detached=False) if self.w.handles[h].is_attached_root and self.clean(self.w.handles[h])]
+        if not c:
+            return None
+        shared = {"ref": {"h": r.choice(c), "path": []}}
+        def holder(tag: str) -> dict[str, Any]:
+            kids = self.fresh_children(r.choice([0, 1]))
+            kids.insert(r.randint(0, len(kids)), shared)
+            return {"c": "LInner", "p": {"tag": tag}, "ch": {"items": kids}, "o": "no", "create_detached": True}
+        kids = [holder("h1"), holder("h2")]
+        if r.random() < 0.4:
+            kids.insert(1, self.fresh_children(1)[0])
+        return {"act": "new", "spec": {"c": "LInner", "p": {"tag": "top"}, "ch": {"lst": kids}, "o": "no"}, "bad": "ctor_shared_by_two_holders"}
+
     def rj_transform_result_refused(self) -> dict[str, Any] | None:
         """transform() of an attached subtree whose result the final replace_with refuses: wrong type for a
         type-restricted field, or None for a required field."""
@@ -1389,6 +1406,7 @@ REJECT_KINDS = [
     "replace_with_attach_fails",
     "replace_with_own_ancestor",
     "ctor_shared_two_depths",
+    "ctor_shared_by_two_holders",
     "transform_result_refused",
     "transform_raises",
 ]
